@@ -1,5 +1,6 @@
 import Naga.Sexp
 import Naga.Sem.Ops
+import Naga.Sem.ConstEval
 /-
 L1 — reference evaluator for the WGSL subset produced by the harness generator.  It works on the
 *generator's own AST* (S-expression), never on naga's parser output, and follows the WGSL
@@ -132,6 +133,11 @@ mutual
       | .atom "f32" => pure (.f32 (f32OfI32 (BitVec.ofNat 32 b)), st)    -- payload = integral value
       | .atom "bool" => pure (.bool (b != 0), st)
       | _ => throw (.stuck "literal type")
+    | .list [.atom "conc", .atom t, a] => do
+      -- abstract-int sub-expression converted to the concrete type of its context
+      match ConstEval.aeval a with
+      | .ok v => pure (← opt (ConstEval.concretizeWrap t v) "concretize", st)
+      | .error _ => throw (.stuck "abstract expression")
     | .list [.atom "var", .atom n, _] => do
       match ← opt (lookup scope n) ("unbound " ++ n) with
       | .val v => pure (v, st)
@@ -475,6 +481,13 @@ def runModule (msexp : Sexp) (inputs : List (Nat × Val)) (fuel : Nat) : M (List
     let mut st : St := { cells := #[], steps := fuel }
     let mut gscope : List (String × Bind) := []
     let mut bound : List (Nat × Nat) := []     -- binding ↦ cell
+    -- module constants first: a `var<private>` initialiser may use them, never the other way round
+    for c in cs do
+      match c with
+      | .list [.atom "const", .atom name, _, e] => do
+        let (v, _) ← eval env0 64 gscope e st
+        gscope := (name, .val v) :: gscope
+      | _ => throw (.stuck "const")
     for g in gs do
       match g with
       | .list [.atom name, .atom space, t, _, b, init] => do
@@ -493,12 +506,6 @@ def runModule (msexp : Sexp) (inputs : List (Nat × Val)) (fuel : Nat) : M (List
         gscope := (name, .cell c) :: gscope
         if space != "private" then bound := ((← opt b.nat? "binding"), c) :: bound
       | _ => throw (.stuck "global")
-    for c in cs do
-      match c with
-      | .list [.atom "const", .atom name, _, e] => do
-        let (v, _) ← eval env0 64 gscope e st
-        gscope := (name, .val v) :: gscope
-      | _ => throw (.stuck "const")
     let env : Env := { env0 with gscope := gscope }
     match entry with
     | .list [.atom "fn", _, _, _, .list body] => do
